@@ -6,7 +6,7 @@ from .color import Color
 from .style import Style
 from .text import Text
 
-re_ansi = re.compile(r"(?:\x1b\[([0-9;:]*)m)|(?:\x1b\](.*?)\x1b\\)")
+re_ansi = re.compile(r"(?:\x1b\[([0-9;:]*)m)|(?:\x1b\](.*?)(?:\x1b\\|\x07))")
 re_csi = re.compile(r"\x1B(?:[@-Z\\-_]|\[[0-?]*[ -/]*[@-~])")
 
 
